@@ -115,4 +115,33 @@ def run(ctx, rep):
         addf("R20d", "%s replies NotEnabled exactly when !enabled, before collecting" % name,
              bool(ne) and bool(ge) and ff.only_through(ne, ge) and all(cb not in ff.mir.reachable(0, removed_edges=[(sb, t) for sb, t in ff.guards(lambda ce: "true" if (ce.expr[0] in ("param", "local") and E.mentions_field(ce.expr, "enabled")) else None)]) for cb, _ in calls),
              "NotEnabled / collection not ordered by the enabled test")
+    # R20e: Err(BadParameter) exactly for a handle that is not among the reader's known instances
+    bp = [bb for bb, i, s in bf.aggregates("DdsError", "BadParameter")]
+    okb = False
+    for sb, ce in bf.ces.items():
+        e0 = E.strip_casts(ce.expr)
+        if E.is_call(e0, "Iterator::any") and e0[2] and E.mentions_field(e0[2][0], "instances") and not E.mentions_field(e0[2][0], "sample_list"):
+            if ce.false_target is not None and bf.only_through(bp, [(sb, ce.false_target)]):
+                okb = True
+    add0("R20e", "Err(BadParameter) only for a handle that is not in the reader's instance list", bool(bp) and okb,
+         "BadParameter is not decided on self.instances (a known instance without stored samples must yield NoData, which the next-instance walk relies on)")
+    # R20f: absolute_generation_rank = (instance's most recent generation) - (generation recorded with the sample)
+    nrank = 0
+    for k in kids:
+        kf = FnCtx(k)
+        for bb, i, s in kf.aggregates("SampleInfo"):
+            flds = s.rv.agg.get("fields") or []
+            if "absolute_generation_rank" not in flds:
+                continue
+            nrank += 1
+            v = E.arith_norm(E.strip_casts(kf.rv_expr(s)[3][flds.index("absolute_generation_rank")]))
+            ok = False
+            if v[0] in ("bin", "ckd") and v[1] == "Sub":
+                l, r = v[2], v[3]
+                ok = E.mentions_field(l, "most_recent_disposed_generation_count") and E.mentions_field(l, "most_recent_no_writers_generation_count") and \
+                    E.mentions_field(r, "disposed_generation_count") and E.mentions_field(r, "no_writers_generation_count") and \
+                    not E.mentions_field(r, "most_recent_disposed_generation_count") and not E.mentions_field(r, "most_recent_no_writers_generation_count")
+            adder(rep, k)("R20f", "absolute_generation_rank = (instance's most recent disposed + no_writers generation) - (the sample's disposed + no_writers generation)", ok,
+                          "rank is %s" % kf.show(v)[:200], s.line)
+    rep.floor("R20f", nrank, 1, "SampleInfo constructions")
     rep.floor("R20", len(rep.obls), 15, "C20 obligations")
